@@ -31,6 +31,14 @@ func (u *Unit) call(f *Frame, st *State, cc *ssa.CallCommon, res ssa.Value, pos 
 	if cc.IsInvoke() {
 		recv := u.value(f, st, cc.Value)
 		key := u.ctx.ifaceKey(cc)
+		if isResponseWriter(cc.Value.Type()) {
+			switch cc.Method.Name() {
+			case "WriteHeader":
+				u.answerEvent(f, st, recv.T, "WriteHeader", pos)
+			case "Write":
+				u.answerEvent(f, st, recv.T, "Write", pos)
+			}
+		}
 		u.oblige(f, st, "nil", "invoke:"+cc.Method.Name(), fmt.Sprintf("(not (= %s 0))", recv.T), pos)
 		u.callSiteObligationsNamed(f, st, cc.Method.Name(), "", key, nil, cc.Signature(), append([]Val{recv}, args...), pos)
 		if con := u.ctx.externs[key]; con != nil {
@@ -62,6 +70,9 @@ func (u *Unit) call(f *Frame, st *State, cc *ssa.CallCommon, res ssa.Value, pos 
 		}
 	}
 	key := u.ctx.fullKey(callee)
+	if key == "net/http.Error" && len(args) == 3 && f.depth == 0 {
+		u.answerEvent(f, st, args[0].T, "Error", pos)
+	}
 	u.callSiteObligations(f, st, callee, key, args, pos)
 	if r, ok := u.intrinsic(f, st, key, callee, args, resTy, pos); ok {
 		return r
@@ -1073,4 +1084,38 @@ func constantString(c *ssa.Const) string {
 func isErrorType(t types.Type) bool {
 	n, ok := t.(*types.Named)
 	return ok && n.Obj().Pkg() == nil && n.Obj().Name() == "error"
+}
+
+// isResponseWriter: the static type is net/http.ResponseWriter.
+func isResponseWriter(t types.Type) bool {
+	n, ok := t.(*types.Named)
+	return ok && n.Obj().Pkg() != nil && n.Obj().Pkg().Path() == "net/http" && n.Obj().Name() == "ResponseWriter"
+}
+
+// answerEvent: ghost protocol of an http.ResponseWriter along the path (kind single-answer):
+// the status is decided once - no WriteHeader / http.Error after a status, an error answer or body
+// bytes were sent, and no body bytes after an error answer (the usual cause is a missing return
+// after http.Error). States: 0 nothing sent, 1 body written, 2 status sent, 3 error answer sent.
+func (u *Unit) answerEvent(f *Frame, st *State, w, ev string, pos token.Pos) {
+	if f.pure || f.depth != 0 {
+		return
+	}
+	cur := "0"
+	if v, ok := st.answered[w]; ok {
+		cur = v
+	}
+	if st.answered == nil {
+		st.answered = map[string]string{}
+	}
+	switch ev {
+	case "Error":
+		u.oblige(f, st, "single-answer", u.exprText(pos, "http.Error"), fmt.Sprintf("(= %s 0)", cur), pos)
+		st.answered[w] = "3"
+	case "WriteHeader":
+		u.oblige(f, st, "single-answer", u.exprText(pos, "WriteHeader"), fmt.Sprintf("(= %s 0)", cur), pos)
+		st.answered[w] = "2"
+	case "Write":
+		u.oblige(f, st, "single-answer", u.exprText(pos, "Write"), fmt.Sprintf("(not (= %s 3))", cur), pos)
+		st.answered[w] = u.em.define("answered", "Int", fmt.Sprintf("(ite (= %s 0) 1 %s)", cur, cur))
+	}
 }
